@@ -1345,6 +1345,22 @@ def corpus():
                                     ["release", v, "fifo", None], ["settle"]]))
         out.append(dict(kind="run", seed=13, honest=True, deferred=[o],
                         script=H + [["hold", v, "version"], ["send", o, "c101"], ["pump", 14], ["dropmsg", v, "version"], ["settle"]]))
+    # LONG sessions, then replays: more peer phases than any plausible "window of recent phases" a client might keep
+    # (70, 140), all delivered; then the server presents the victim's mailbox again — an honest replay on re-open
+    # (drop/open) and a verbatim duplicate of the frames still in flight — and the session goes on.  The victim is a
+    # delegate-mode application (the Deferred API would hide a second got_versions).
+    for nlong, v in ((70, 0), (140, 1)):
+        o = 1 - v
+        sc = [["open", 0], ["open", 1], ["code", 0], ["code", 1], ["pump", 12]]
+        for i in range(nlong):
+            sc.append(["send", o, "%04x" % i])
+            if i % 10 == 9:
+                sc.append(["settle"])
+        sc += [["settle"], ["relabel", v, o, 0, "", ""], ["relabel", v, o, 1, "", ""], ["relabel", v, o, 2, "", ""], ["settle"],
+               ["send", o, "fffe"], ["settle"],
+               ["drop", v], ["open", v], ["settle"], ["send", o, "ffff"], ["send", v, "eeee"], ["pump", 3],
+               ["dupmsg", v, 0], ["settle"]]
+        out.append(dict(kind="run", seed=17, honest=True, script=sc))
     # input_code: the peer's (or a forged) PAKE arrives before the words
     I = [["open", 0], ["open", 1], ["code", 0], ["nameplate", 1], ["pump", 10]]
     out.append(dict(kind="run", seed=5, honest=True, script=I + [["code", 1], ["send", 0, "01"], ["settle"]]))
